@@ -74,6 +74,11 @@ def oracleC09 (c : TCase) : Verdict :=
       else
       if s.prevState == "sendBody" && s.bodyEnded && t.res == ["bool", "false"] then
         { s with fail := some "the whole request body was written and its end signalled, but the flow is not ready to advance" }
+      else
+      -- a response head other than a 100 was handed to the caller: the flow stands before its successor state
+      if s.prevState == "recvResponse" && t.res == ["bool", "false"] &&
+         (match s.lastResp with | some (status, _, _) => status ≥ 101 | none => false) then
+        { s with fail := some "a response head was handed out, but the flow is not ready to leave RecvResponse" }
       else s1
     | "despite" => if t.res == ["unit"] then { s1 with despite := true } else s1
     | "follow" => (match t.res with | "flow" :: m :: _ => { s1 with method := m, firstFlow := false, despite := false, refused := false, lastResp := none, bodyEnded := false, sentIn := 0, hdrs := [], headDone := false } | _ => s1)
